@@ -768,6 +768,11 @@ func declHelperName(d ast.Decl) string {
 				if m := reHelperName.FindStringSubmatch(id.Name); m != nil {
 					return m[1]
 				}
+				if id.Name == "Resolver" { // helper method on the root resolver struct (token hr)
+					if m := reHelperName.FindStringSubmatch(x.Name.Name); m != nil {
+						return m[1]
+					}
+				}
 			}
 			return ""
 		}
